@@ -19,7 +19,7 @@ pub trait StackT: Any {
     fn as_any(&self) -> &dyn Any;
     fn fresh(&self) -> Box<dyn StackT>;
     fn copy(&mut self, v: &Value);
-    fn extend(&mut self, vs: &[Value]);
+    fn extend(&mut self, vs: &[Value], exact_hint: bool);
     fn from_iter(&self, vs: &[Value]) -> Box<dyn StackT>;
     fn with_capacity(&self, n: usize) -> Box<dyn StackT>;
     fn merge_capacity(&self, srcs: &[&dyn StackT]) -> Box<dyn StackT>;
@@ -37,6 +37,7 @@ pub trait StackT: Any {
     fn iter_laws(&self) -> Result<(), String>;
     fn heap(&self) -> Vec<(usize, usize)>;
     fn region_heap_used(&self) -> usize;
+    fn region_heap_caps(&self) -> usize;
 }
 
 pub struct StackSlot<R: Region, S: IndexContainer<R::Index>> {
@@ -82,9 +83,14 @@ where
         self.st.copy(&o);
         let _ = self.shadow.push(&o);
     }
-    fn extend(&mut self, vs: &[Value]) {
+    fn extend(&mut self, vs: &[Value], exact_hint: bool) {
         let os: Vec<R::Owned> = vs.iter().map(R::Owned::from_json).collect();
-        self.st.extend(os.iter());
+        if exact_hint {
+            self.st.extend(os.iter());
+        } else {
+            // an iterator whose size_hint has lower bound 0: extend must still absorb every item
+            self.st.extend(os.iter().filter(|_| true));
+        }
         for o in &os {
             let _ = self.shadow.push(o);
         }
@@ -200,6 +206,11 @@ where
         self.shadow.heap_size(|u, _| used += u);
         used
     }
+    fn region_heap_caps(&self) -> usize {
+        let mut caps = 0;
+        self.shadow.heap_size(|_, c| caps += c);
+        caps
+    }
 }
 
 pub struct StackSubject {
@@ -279,7 +290,7 @@ fn apply(s: &mut Box<dyn StackT>, op: &Value) -> Result<(), String> {
     let vs: Vec<Value> = op["vs"].as_array().cloned().unwrap_or_default();
     guarded(|| match name.as_str() {
         "copy" => s.copy(&op["v"]),
-        "extend" => s.extend(&vs),
+        "extend" => s.extend(&vs, op["hint"] != json!("none")),
         "from_iter" => *s = s.from_iter(&vs),
         "with_capacity" => *s = s.with_capacity(op["n"].as_u64().unwrap_or(0) as usize),
         "merge_capacity" => {
@@ -401,6 +412,17 @@ pub fn replay_edge(edge: &Value, prop: &str, rep: &mut Report) {
                 if total - region_used != 0 {
                     why.push("index-bytes-not-zero".into());
                     detail = json!({"stack_used": total, "region_used": region_used, "spec_index_bytes": exp["icused"]});
+                }
+                // "occupies no heap at all": nothing may be allocated for the indices either. Capacity that
+                // a clear() retained is legitimate, so only histories without a reset are judged.
+                let reset = path.iter().any(|o| matches!(opname(o), "clear" | "with_capacity" | "merge_capacity" | "clone_from"));
+                if !reset {
+                    let caps: i64 = obs["caps"].as_array().map(|a| a.iter().map(|c| c.as_i64().unwrap_or(0)).sum()).unwrap_or(0);
+                    let region_caps = s.region_heap_caps() as i64;
+                    if caps - region_caps != 0 {
+                        why.push("index-capacity-not-zero".into());
+                        detail = json!({"stack_capacity": caps, "region_capacity": region_caps});
+                    }
                 }
             }
         }
